@@ -13,6 +13,7 @@ package mqttproxy
 
 import (
 	"fmt"
+	"net"
 	"sync"
 	"testing"
 	"time"
@@ -220,7 +221,9 @@ func TestVerifC17MqttConc(t *testing.T) {
 // A connection started with slow = true belongs to a client that is slow to read its CONNACK: it is connected over
 // an unbuffered in-memory connection (net.Pipe handed to Broker.handleConn) whose broker-side writes are held;
 // "release" opens the pipeline gate and returns when the broker is blocked writing the CONNACK, "take" lets the
-// client read it - other attempts are started, released and ended in between.
+// client read it - other attempts are started, released and ended in between.  "abandon": the slow reader gives up instead -
+// it closes its connection, the broker's pending write of the CONNACK fails (abandon event; gone when Broker.handleConn has
+// returned).
 type c17Gate struct {
 	parked  chan struct{}
 	release chan struct{}
@@ -386,6 +389,23 @@ func TestVerifC17MqttGated(t *testing.T) {
 				}
 			case "take":
 				take(name)
+			case "abandon":
+				c := conns[name]
+				if c == nil || c.done || !c.atAck || c.cl.handlerDone == nil {
+					break
+				}
+				c.done = true // no CONNACK will ever be read
+				w.Emit(vx.M{"ev": "abandon", "c": name})
+				c.cl.conn.Close()   // the client is gone ...
+				c.cl.gate.Release() // ... and the broker's pending write of the CONNACK fails
+				select {
+				case <-c.cl.handlerDone:
+					// (for the report only) is the connection that is gone still what the broker has registered for its client id?
+					bc := x.Registered(c.cl.id)
+					w.Emit(vx.M{"ev": "gone", "c": name, "stale": bc != nil && bc.conn == net.Conn(c.cl.gate)})
+				case <-time.After(c17Wait):
+					fail = "Broker.handleConn did not return after the CONNACK write failed"
+				}
 			case "end":
 				c := conns[name]
 				if c == nil || !c.accepted || c.ended {
